@@ -204,6 +204,31 @@ func extTerms(es []tls.TLSExtension) (string, bool) {
 	return vh.List(it), true
 }
 
+// keyShareVariant: the predefined spec of id with the key_share extension's list replaced (a fresh spec per call: extension
+// values are mutated by the connection that uses them). Custom specs reach key-share shapes no shipped parrot has: a hybrid
+// share only, hybrid + P-256 without X25519, P-256 only, GREASE + hybrid.
+func keyShareVariant(id tls.ClientHelloID, groups []tls.CurveID) func() *tls.ClientHelloSpec {
+	return func() *tls.ClientHelloSpec {
+		spec, err := tls.UTLSIdToSpec(id)
+		if err != nil {
+			return nil
+		}
+		for _, e := range spec.Extensions {
+			if ks, ok := e.(*tls.KeyShareExtension); ok {
+				ks.KeyShares = nil
+				for _, g := range groups {
+					sh := tls.KeyShare{Group: g}
+					if g == tls.GREASE_PLACEHOLDER {
+						sh.Data = []byte{0}
+					}
+					ks.KeyShares = append(ks.KeyShares, sh)
+				}
+			}
+		}
+		return &spec
+	}
+}
+
 // ---- one scripted run ----
 type obs struct {
 	r         *hs.Result
@@ -219,7 +244,7 @@ type obs struct {
 	hadCookie bool
 }
 
-func runHRR(pr hs.Parrot, script *tls.VerifServerScript, wantExt bool, partner *hs.Parrot, preset bool) *obs {
+func runHRR(pr hs.Parrot, spec func() *tls.ClientHelloSpec, script *tls.VerifServerScript, wantExt bool, partner *hs.Parrot, preset bool) *obs {
 	p := hs.SharedPKI()
 	o := &obs{cookieIdx: -1}
 	var uc *tls.UConn
@@ -238,7 +263,11 @@ func runHRR(pr hs.Parrot, script *tls.VerifServerScript, wantExt bool, partner *
 			b.Close()
 		}
 	}
-	o.r = hs.Run(hs.Opts{ID: pr.ID, ClientCfg: ccfg, ServerCfg: p.ServerConfig("h2", "http/1.1"), Script: script,
+	var sp *tls.ClientHelloSpec
+	if spec != nil {
+		sp = spec()
+	}
+	o.r = hs.Run(hs.Opts{ID: pr.ID, Spec: sp, ClientCfg: ccfg, ServerCfg: p.ServerConfig("h2", "http/1.1"), Script: script,
 		Prepare: func(u *tls.UConn) error {
 			uc = u
 			// Handshake() calls BuildHandshakeState again (u_conn.go:376); the marshal is repeated on the same values
@@ -270,11 +299,16 @@ func runHRR(pr hs.Parrot, script *tls.VerifServerScript, wantExt bool, partner *
 }
 
 // probe: the parrot's offered groups and shares (classical ones do not vary between connections)
-func probe(pr hs.Parrot) *hs.WireHello {
+func probe(pr hs.Parrot, spec func() *tls.ClientHelloSpec) *hs.WireHello {
 	a, b := net.Pipe()
 	defer a.Close()
 	defer b.Close()
 	uc := tls.UClient(a, hs.SharedPKI().ClientConfig(), pr.ID)
+	if spec != nil {
+		if err := uc.ApplyPreset(spec()); err != nil {
+			return nil
+		}
+	}
 	if err := uc.BuildHandshakeState(); err != nil {
 		return nil
 	}
@@ -312,6 +346,8 @@ type job struct {
 	partner *hs.Parrot
 	// preset: Config.CurvePreferences set by the application before UClient (all four classical curves)
 	preset bool
+	// spec: non-nil for a custom ClientHelloSpec (HelloCustom + ApplyPreset), a fresh value per call
+	spec func() *tls.ClientHelloSpec
 }
 
 func run(c *vh.Ctx) {
@@ -321,18 +357,19 @@ func run(c *vh.Ctx) {
 	tls13 := 0
 	// probes of all TLS 1.3 parrots first: partners for the shared-Config scenarios are chosen from them
 	type probed struct {
-		pi int
-		pr hs.Parrot
-		w  *hs.WireHello
+		pi   int
+		pr   hs.Parrot
+		w    *hs.WireHello
+		spec func() *tls.ClientHelloSpec
 	}
 	var ps []probed
 	for pi, pr := range hs.Parrots() {
-		w := probe(pr)
+		w := probe(pr, nil)
 		if w == nil || !hs.ContainsU16(w.SupportedVersions, tls.VersionTLS13) || !w.HasKeyShare {
 			c.Count("parrot-without-tls13")
 			continue
 		}
-		ps = append(ps, probed{pi, pr, w})
+		ps = append(ps, probed{pi, pr, w, nil})
 	}
 	// a TLS 1.3 parrot (other than self) that lists / does not list group g, rotating with the seed
 	partnerFor := func(self string, g uint16, lists bool, salt int) *hs.Parrot {
@@ -345,9 +382,71 @@ func run(c *vh.Ctx) {
 		}
 		return nil
 	}
-	for _, pp := range ps {
+	// custom specs: every parrot that lists a hybrid group, with its key_share list replaced by shapes no parrot ships
+	// (quick: two of those parrots, rotating with the seed)
+	var vs []probed
+	var bases []probed
+	for _, q := range ps {
+		if hs.ContainsU16(q.w.SupportedGroups, uint16(tls.X25519MLKEM768)) || hs.ContainsU16(q.w.SupportedGroups, uint16(tls.X25519Kyber768Draft00)) {
+			bases = append(bases, q)
+		}
+	}
+	// quick: one base per hybrid group kind (X25519MLKEM768, X25519Kyber768Draft00), rotating with the seed; thorough: all
+	pick := map[uint16]int{}
+	count := map[uint16]int{}
+	kindOf := func(q probed) uint16 {
+		if hs.ContainsU16(q.w.SupportedGroups, uint16(tls.X25519MLKEM768)) {
+			return uint16(tls.X25519MLKEM768)
+		}
+		return uint16(tls.X25519Kyber768Draft00)
+	}
+	for _, q := range bases {
+		count[kindOf(q)]++
+	}
+	for k, n := range count {
+		pick[k] = int(c.Seed) % n
+	}
+	seen := map[uint16]int{}
+	for _, q := range bases {
+		kd := kindOf(q)
+		idx := seen[kd]
+		seen[kd]++
+		if !thorough && idx != pick[kd] {
+			continue
+		}
+		hy := tls.X25519MLKEM768
+		if !hs.ContainsU16(q.w.SupportedGroups, uint16(hy)) {
+			hy = tls.X25519Kyber768Draft00
+		}
+		for _, v := range []struct {
+			tag    string
+			groups []tls.CurveID
+		}{
+			{"hybrid-only", []tls.CurveID{hy}},
+			{"hybrid+p256", []tls.CurveID{hy, tls.CurveP256}},
+			{"p256-only", []tls.CurveID{tls.CurveP256}},
+			{"grease+hybrid", []tls.CurveID{tls.GREASE_PLACEHOLDER, hy}},
+			{"p256+x25519", []tls.CurveID{tls.CurveP256, tls.X25519}},
+		} {
+			pr := hs.Parrot{Name: q.pr.Name + "+keyshare-" + v.tag, ID: tls.HelloCustom}
+			spec := keyShareVariant(q.pr.ID, v.groups)
+			w := probe(pr, spec)
+			if w == nil {
+				c.Count("custom-spec-does-not-build")
+				continue
+			}
+			vs = append(vs, probed{100 + len(vs), pr, w, spec})
+		}
+	}
+	c.Extra["custom_specs"] = len(vs)
+	for _, pp := range append(append([]probed{}, ps...), vs...) {
 		pi, pr, w := pp.pi, pp.pr, pp.w
+		cookieSizes := cookieSizes
+		if pp.spec != nil {
+			cookieSizes = []int{0, 32}
+		}
 		tls13++
+		j0 := len(jobs)
 		var valid []uint16
 		for _, g := range classical {
 			if hs.ContainsU16(w.SupportedGroups, g) && !hs.ContainsU16(w.KeyShareGroups, g) {
@@ -364,7 +463,7 @@ func run(c *vh.Ctx) {
 		for gi, g := range valid {
 			for ci, n := range cookieSizes {
 				// byte-exact cases: one per parrot in the quick tier (rotating cookie size), all but the 4094-byte ones in thorough
-				wantExt := (first && ci == (pi+int(c.Seed))%4) || (thorough && n != 4094)
+				wantExt := (first && ci == (pi+int(c.Seed))%min(4, len(cookieSizes))) || (thorough && n != 4094)
 				if wantExt {
 					first = false
 				}
@@ -373,7 +472,10 @@ func run(c *vh.Ctx) {
 			// every TLS 1.3 suite the parrot offers (SHA-256 and SHA-384 transcripts: the message_hash substitution depends on
 			// the hash), the server made to select it; cookie size rotates
 			for si, su := range suites13 {
-				n := cookieSizes[(pi+gi+si+int(c.Seed))%3]
+				if pp.spec != nil && si != (pi+gi+int(c.Seed))%len(suites13) {
+					continue // custom specs: one suite per group, rotating
+				}
+				n := cookieSizes[(pi+gi+si+int(c.Seed))%min(3, len(cookieSizes))]
 				jobs = append(jobs, job{pi: pi, pr: pr, kind: "valid", group: g, cookie: n, suite: su})
 				if thorough {
 					jobs = append(jobs, job{pi: pi, pr: pr, kind: "valid", group: g, cookie: 255, suite: su, wantExt: true})
@@ -390,7 +492,21 @@ func run(c *vh.Ctx) {
 			c.Count("parrot-without-unshared-classical-group")
 		}
 		// cookie-only HelloRetryRequest (RFC 8446 allows it): key_share must stay as it was
+		// (only when the hello carries a share for the group the server will settle on - its most preferred group among those
+		// the hello lists: after a cookie-only HRR the key_share is unchanged, and a server that wants another group must ask
+		// again, which no client may accept)
+		usable := false
+		for _, g := range []uint16{uint16(tls.X25519MLKEM768), 29, 23, 24, 25} {
+			if hs.ContainsU16(w.SupportedGroups, g) {
+				usable = hs.ContainsU16(w.KeyShareGroups, g)
+				break
+			}
+		}
 		for i, n := range []int{16, 300} {
+			if !usable {
+				c.Count("cookie-only-not-applicable-no-usable-share")
+				break
+			}
 			j := job{pi: pi, pr: pr, kind: "cookie-only", cookie: n, wantExt: thorough}
 			if len(suites13) > 0 {
 				j.suite = suites13[(pi+i)%len(suites13)]
@@ -428,6 +544,9 @@ func run(c *vh.Ctx) {
 			}
 		}
 		jobs = append(jobs, job{pi: pi, pr: pr, kind: "nochange"})
+		for k := j0; k < len(jobs); k++ {
+			jobs[k].spec = pp.spec
+		}
 	}
 	c.Extra["tls13_parrots"] = tls13
 	c.Extra["jobs"] = len(jobs)
@@ -449,7 +568,7 @@ func run(c *vh.Ctx) {
 		go func(i int, j job) {
 			defer wg.Done()
 			defer func() { <-sem }()
-			results[i] = runHRR(j.pr, scripts[i], j.wantExt, j.partner, j.preset)
+			results[i] = runHRR(j.pr, j.spec, scripts[i], j.wantExt, j.partner, j.preset)
 		}(i, j)
 	}
 	wg.Wait()
@@ -598,9 +717,12 @@ func judgeValid(c *vh.Ctx, j job, cookie []byte, o *obs) {
 			if len(s2) != 1 || s2[0].Group != j.group || len(s2[0].Data) != shareLen[j.group] {
 				c.Fail("keyshare/"+name, "second key_share is not exactly one share for the requested group", in, shareIDs(s2), []uint16{j.group})
 			} else {
+				// fresh: the new public key occurs in no key_exchange byte string of the first hello, neither as a whole
+				// share nor as a part of one (a hybrid share carries an X25519 public key next to the ML-KEM key)
 				for _, s := range s1 {
-					if bytes.Equal(s.Data, s2[0].Data) {
-						c.Fail("keyshare/"+name, "the share in the second hello is not fresh", in, vh.Hex(s2[0].Data), "new key")
+					if bytes.Contains(s.Data, s2[0].Data) {
+						c.Fail("keyshare/"+name, "the share in the second hello is not fresh: its bytes were already sent in the first hello's key_share", in,
+							fmt.Sprintf("group %d: %s, found in the first hello's share for group %d", s2[0].Group, vh.Hex(s2[0].Data), s.Group), "new key")
 					}
 				}
 				if bytes.Equal(s2[0].Data, make([]byte, len(s2[0].Data))) {
@@ -647,7 +769,10 @@ func judgeValid(c *vh.Ctx, j job, cookie []byte, o *obs) {
 	kind := j.kind
 	// Coq elaborates long literals slowly: in the quick tier the 255- and 4094-byte cookies go to Coq for every
 	// sixth parrot only (rotating with the seed; 4094 bytes: with P-256 / X25519 only); the Go-side oracle above has judged all of them
-	if c.Tier == "quick" && ((j.cookie >= 255 && (j.pi+int(c.Seed))%6 != 0) || (j.cookie > 255 && j.group != 23 && j.group != 29)) {
+	if c.Tier == "quick" && j.suite != 0 && j.spec == nil && j.kind == "valid" && !j.wantExt {
+		// the suite-crossing rows repeat the extension-list surgery of the default-suite rows: judged by the Go-side oracle
+		c.Count("step-suite-row-go-oracle-only")
+	} else if c.Tier == "quick" && ((j.cookie >= 255 && (j.pi+int(c.Seed))%6 != 0) || (j.cookie > 255 && j.group != 23 && j.group != 29)) {
 		c.Count("step-long-cookie-go-oracle-only")
 	} else if o.skOK && o.skAfterOK {
 		term := fmt.Sprintf("(CStep %d %d %d %d %d %d %s %d %s %s)", len(h1.SID), len(h1.Suites)/2, len(h1.Comp), r.View.PSKIdentities,
